@@ -199,6 +199,9 @@ namespace chaiscript {
 
     void reset_return_value() const noexcept { m_data->m_return_value = false; }
 
+    /// \returns true if no other Boxed_Value (variable, parameter, container element) shares this value
+    bool is_unique() const noexcept { return m_data.use_count() == 1; }
+
     bool is_pointer() const noexcept { return !is_ref(); }
 
     void *get_ptr() const noexcept { return m_data->m_data_ptr; }
